@@ -724,6 +724,9 @@ def gen_handshakes(r, n_random):
     for v in ("chat", "jetx", "xjet", "je t", "JET", "chat, superchat", "j,e,t"):
         add("protocol list without jet `%s`" % v, False, hdrs=repl("Sec-WebSocket-Protocol", v))
     add("two protocol headers, second has jet", True, hdrs=drop("Sec-WebSocket-Protocol") + [("Sec-WebSocket-Protocol", "chat"), ("Sec-WebSocket-Protocol", "jet")])
+    add("two protocol headers, first has jet", True, hdrs=drop("Sec-WebSocket-Protocol") + [("Sec-WebSocket-Protocol", "jet"), ("Sec-WebSocket-Protocol", "chat")])
+    add("three protocol headers, middle has jet", True, hdrs=drop("Sec-WebSocket-Protocol") + [("Sec-WebSocket-Protocol", "chat"), ("Sec-WebSocket-Protocol", "soap, jet"), ("Sec-WebSocket-Protocol", "mqtt, wamp")])
+    add("two protocol headers, first has jet in a list", True, hdrs=drop("Sec-WebSocket-Protocol") + [("Sec-WebSocket-Protocol", "x, jet"), ("Sec-WebSocket-Protocol", "")])
     add("two protocol headers, none has jet", False, hdrs=drop("Sec-WebSocket-Protocol") + [("Sec-WebSocket-Protocol", "chat"), ("Sec-WebSocket-Protocol", "soap")])
     add("missing key", None, hdrs=drop("Sec-WebSocket-Key"))
     add("missing version", None, hdrs=drop("Sec-WebSocket-Version"))
@@ -770,8 +773,16 @@ def gen_handshakes(r, n_random):
             lst = r.sample(["chat", "soap", "mqtt", "jet", "wamp"], r.randrange(1, 5))
             valid = "jet" in lst
             sep = r.choice([",", ", ", ",  ", ",\t"])
-            hd = [(k, (sep.join(lst) if k == "Sec-WebSocket-Protocol" else v)) for k, v in hd]
-            note += " protocol list %s" % lst
+            if len(lst) >= 2 and r.random() < 0.5:
+                # RFC 7230 3.2.2: the list may be spread over several header lines of the same name
+                cut = r.randrange(1, len(lst))
+                i0 = [i for i, (k, _) in enumerate(hd) if k == "Sec-WebSocket-Protocol"][0]
+                hd[i0] = ("Sec-WebSocket-Protocol", sep.join(lst[:cut]))
+                hd.insert(r.randrange(i0 + 1, len(hd) + 1), ("Sec-WebSocket-Protocol", sep.join(lst[cut:])))
+                note += " protocol list on two lines %s | %s" % (lst[:cut], lst[cut:])
+            else:
+                hd = [(k, (sep.join(lst) if k == "Sec-WebSocket-Protocol" else v)) for k, v in hd]
+                note += " protocol list %s" % lst
         elif x < 0.4:
             klen = r.choice((0, 1, 22, 23, 25, 26, 48))
             key = "k" * klen
